@@ -335,7 +335,7 @@ def main():
     os.makedirs(a.outdir, exist_ok=True)
     common = ['// generated by verif/gen_fungible.py -- do not edit', '#pragma once', '#include "kit/typeops.h"',
               '#include <nop/traits/is_fungible.h>', '#include <nop/protocol.h>', pool.emit_decls(), pool.emit_meta(),
-              'namespace vk { struct PairTraits { bool ab, ba, aa, bb; int protocol_status; }; }']
+              'namespace vk { struct PairTraits { bool ab, ba, aa, bb; int protocol_status; int sig_mismatch; }; }']
     write(os.path.join(a.outdir, 'fung_common.h'), '\n'.join(common) + '\n')
     # types (A and B of every pair), de-duplicated by spelling
     spell = {}
@@ -357,7 +357,21 @@ def main():
         out = ['#include "fung_common.h"', 'namespace vk {',
                '// a template so that the if-constexpr branch is really discarded when the trait is false',
                'template <typename A, typename B> static PairTraits fung_compute() {',
-               '  PairTraits t{nop::IsFungible<A, B>::value, nop::IsFungible<B, A>::value, nop::IsFungible<A, A>::value, nop::IsFungible<B, B>::value, -1};',
+               '  PairTraits t{nop::IsFungible<A, B>::value, nop::IsFungible<B, A>::value, nop::IsFungible<A, A>::value, nop::IsFungible<B, B>::value, -1, -1};',
+               '  // Signatures are fungible exactly when return and argument types are (after decay); C arrays decay to',
+               '  // pointers in a signature and are left out.',
+               '  if constexpr (!std::is_array<A>::value && !std::is_array<B>::value) {',
+               '    constexpr bool ab = nop::IsFungible<A, B>::value, ba = nop::IsFungible<B, A>::value;',
+               '    int m = 0;',
+               '    if (nop::IsFungible<void(const A&), void(const B&)>::value != ab) m |= 1;',
+               '    if (nop::IsFungible<int(A&&, int), int(B&&, int)>::value != ab) m |= 2;',
+               '    if (nop::IsFungible<void(const A&), void(B)>::value != ab) m |= 4;',
+               '    if (nop::IsFungible<A(), B()>::value != ab) m |= 8;',
+               '    if (nop::IsFungible<A(const B&), B(const A&)>::value != (ab && ba)) m |= 16;',
+               '    if (nop::IsFungible<void(const A&), void(const A&, int)>::value) m |= 32;',
+               '    if (nop::IsFungible<void(const B&), void(const A&)>::value != ba) m |= 64;',
+               '    t.sig_mismatch = m;',
+               '  }',
                '  // Protocol<A>::Write/Read admit B exactly when the trait is true (overload resolution); exercised when it is.',
                '  if constexpr (nop::IsFungible<A, B>::value && !MetaOf<A>::kHandle) {',
                '    Holder<B> hb; LogWriter w; nop::Serializer<LogWriter*> s{&w};',
